@@ -209,5 +209,6 @@ class Nameplate:
 
     S5A.upon(connected, enter=S5B, outputs=[])
     S5B.upon(lost, enter=S5A, outputs=[])
+    S5.upon(_set_nameplate, enter=S5, outputs=[])  # code arrived after we closed
     S5.upon(release, enter=S5, outputs=[])  # mailbox is lazy
     S5.upon(close, enter=S5, outputs=[])
